@@ -139,7 +139,7 @@ def run(ctx):
             typed_stale = set()   # id() of objects whose last modification was a direct edit (root/leaf/branch sets not claimed)
             relatives = []      # objects the current neuron was derived from / produced together with (inputs left behind, other halves)
             for k in range(int(rng.integers(2, maxsteps + 1))):
-                kind = str(rng.choice(['warm', 'op', 'op', 'edit'] + (['relative', 'relative'] if relatives else [])))
+                kind = str(rng.choice(['warm', 'op', 'op', 'edit', 'rejected', 'edit+rewrap'] + (['relative', 'relative'] if relatives else [])))
                 if relatives and hist and hist[-1].get('step') == 'op' and not hist[-1].get('inplace') and rng.random() < 0.35:
                     kind = 'relative'
                 after_direct = False
@@ -165,8 +165,6 @@ def run(ctx):
                         if st != 'ok' or p is None:
                             continue
                         st, _ = guarded(op.apply, r, p, True)
-                        if st == 'ok':
-                            typed_stale.discard(id(r))
                         hist.append(dict(step='relative-op', relative=ri, op=name, params=p, inplace=True, status=st))
                     ctx.count('relative:' + name)
                     # fall through: the current neuron's table is unchanged, every view must still describe it; then the relative itself
@@ -185,7 +183,48 @@ def run(ctx):
                                 ctx.violation('cached view differs from a freshly constructed neuron (' + what + ')',
                                               dict(start=f, backend=be, history=list(hist), view=v), dict(got=short(got), fresh=short(want)))
                                 break
+                        # the reads above went through the stale check, which re-classifies the nodes: from here on the
+                        # root / leaf / branch sets of this object are claimed again (unless its LAST step was a direct edit)
+                        if not (obj is r and hist[-1]['step'] == 'relative-direct'):
+                            typed_stale.discard(id(obj))
                     continue
+                if kind == 'rejected':
+                    # an operation that REJECTS its arguments (raises) must leave the neuron as usable as before: in particular unlocked
+                    which = str(rng.choice(['reroot-missing-node', 'reroot-no-soma', 'subset-garbage']))
+                    bad_id = int(max(int(v) for v in x.nodes.node_id.values) + 12345)
+                    if which == 'reroot-missing-node':
+                        st, _r = guarded(navis.reroot_skeleton, x, bad_id, inplace=True)
+                    elif which == 'reroot-no-soma':
+                        st, _r = guarded(lambda: x.reroot(x.soma, inplace=True))
+                    else:
+                        st, _r = guarded(navis.subset_neuron, x, 'not a subset', inplace=True)
+                    hist.append(dict(step='rejected-op', call=which, status=st))
+                    ctx.count('rejected:' + which)
+                    if st == 'ok':
+                        dirty = True
+                    kind = 'edit'      # and the table is then edited directly: every view must follow
+                if kind == 'edit+rewrap':
+                    # a direct edit that is NOT followed by a read, then the neuron is re-wrapped in its own class: the new object
+                    # must not inherit caches computed before the edit
+                    st, d = guarded(direct_edit, rng, x)
+                    if st != 'ok':
+                        ctx.obligation('harness:direct_edit', False, str(d))
+                        return
+                    hist.append(dict(step='direct', **{k2: v2 for k2, v2 in d.items() if k2 != 'forest'}))
+                    how = str(rng.choice(['TreeNeuron(x)', 'Neuron(x)', 'x.copy()']))
+                    st, y_ = guarded((lambda: navis.TreeNeuron(x)) if how == 'TreeNeuron(x)' else (lambda: navis.core.Neuron(x)) if how == 'Neuron(x)' else (lambda: x.copy()))
+                    hist.append(dict(step='rewrap', how=how, status=st))
+                    ctx.count('rewrap:' + how)
+                    if st != 'ok':
+                        ctx.violation('re-wrapping a directly edited neuron raised', dict(start=f, backend=be, history=list(hist)), y_)
+                        break
+                    typed_stale.add(id(y_))
+                    relatives.append(x); relatives = relatives[-3:]
+                    typed_stale.add(id(x))
+                    x = y_
+                    dirty = True
+                    after_direct = True
+                    kind = 'verify-only'
                 if kind == 'warm':
                     vs = [VIEWS[int(i)] for i in rng.choice(len(VIEWS), size=int(rng.integers(1, 4)), replace=False)]
                     for v in vs:
@@ -232,6 +271,8 @@ def run(ctx):
                         relatives = relatives[-3:]
                         x = nxt
                     dirty = True
+                elif kind == 'verify-only':
+                    pass
                 else:
                     st, d = guarded(direct_edit, rng, x)
                     if st != 'ok':
